@@ -64,6 +64,12 @@ KINDS = {
                  item="num", items=[0, 1, 2, 7], bad_items=["x", None]),
     "words": dict(name="words", ann="List[str]", conf=[["list", []], ["list", ["", "a"]]], bad=[["list", [1]]],
                   mut="['a']", mut_spec=["list", ["a"]], item="word", items=["", "a", "b"], bad_items=[1]),
+    "lits": dict(name="lits", ann="List[Literal['a', 'b']]", conf=[["list", []], ["list", ["a", "b"]]],
+                 bad=[["list", ["a", "c"]], ["list", ["c"]], 5], mut="['a']", mut_spec=["list", ["a"]], item="lit",
+                 items=["a", "b"], bad_items=["c", 1]),
+    "grids": dict(name="grids", ann="List[List[int]]", conf=[["list", []], ["list", [["list", [1]], ["list", []]]]],
+                  bad=[["list", [["list", [1]], ["list", ["x"]]]], ["list", [1]]], mut="[[1]]", mut_spec=["list", [["list", [1]]]],
+                  item="grid", items=[["list", [1]], ["list", []]], bad_items=[["list", ["x"]], 5]),
     "scores": dict(name="scores", ann="Dict[str, int]", conf=[["dict", []], ["dict", [["a", 1]]], ["dict", [["", 0], ["b", 2]]], ["dict", [["c", 7]]]],
                    bad=[5, ["dict", [[1, 1]]], ["dict", [["a", "x"]]]], mut="{'a': 1}", mut_spec=["dict", [["a", 1]]],
                    item="score", keys=["", "a", "b"], bad_keys=[1], items=[0, 1, 2], bad_items=["x"]),
@@ -101,23 +107,23 @@ KINDS = {
     "links": dict(name="links", ann="KeyedList[Keyed, str]",
                   conf=[["KeyedList", []], ["KeyedList", [["Keyed", {"key": "a"}]]],
                         ["list", [["Keyed", {"key": "a", "n": 1}], ["Keyed", {"key": "b"}]]]],
-                  bad=[["list", [5]]], mut="KeyedList[Keyed, str]([Keyed('d')])", mut_spec=["KeyedList", [["Keyed", {"key": "d"}]]],
+                  bad=[["list", [5]], ["RawKeyedList", [1, 2]]], mut="KeyedList[Keyed, str]([Keyed('d')])", mut_spec=["KeyedList", [["Keyed", {"key": "d"}]]],
                   item="link", items=[["Keyed", {"key": "a"}], ["Keyed", {"key": "b", "n": 1}], "c"], bad_items=[5],
                   nested_item="Keyed"),
     "marks": dict(name="marks", ann="KeyedSet[Keyed, str]",
                   conf=[["KeyedSet", []], ["KeyedSet", [["Keyed", {"key": "a"}]]],
                         ["list", [["Keyed", {"key": "a", "n": 1}], ["Keyed", {"key": "b"}]]]],
-                  bad=[["list", [5]]], mut="KeyedSet[Keyed, str]([Keyed('d')])", mut_spec=["KeyedSet", [["Keyed", {"key": "d"}]]],
+                  bad=[["list", [5]], ["RawKeyedSet", [1, 2]]], mut="KeyedSet[Keyed, str]([Keyed('d')])", mut_spec=["KeyedSet", [["Keyed", {"key": "d"}]]],
                   item="mark", items=[["Keyed", {"key": "a"}], ["Keyed", {"key": "b", "n": 1}], "c"], bad_items=[5],
                   nested_item="Keyed"),
     "any": dict(name="anyv", ann="Any", conf=[1, ["list", [1]]], bad=[], lit="None", lit_spec=None, mut="[1]", mut_spec=["list", [1]]),
 }
 SCALAR_KINDS = ["int", "str", "float", "optint", "union", "literal", "bounded", "even"]
-COLLECTION_KINDS = ["nums", "words", "scores", "tags", "labels", "kids", "pairs", "units", "parts", "links", "marks"]
-SEQ_KINDS = ["nums", "words", "kids", "fkids", "units", "links"]
+COLLECTION_KINDS = ["nums", "words", "lits", "grids", "scores", "tags", "labels", "kids", "pairs", "units", "parts", "links", "marks"]
+SEQ_KINDS = ["nums", "words", "lits", "grids", "kids", "fkids", "units", "links"]
 MAP_KINDS = ["scores", "pairs", "parts"]
 SET_KINDS = ["tags", "labels", "marks"]
-ALL_KINDS = SCALAR_KINDS + COLLECTION_KINDS[:5] + ["leaf"] + COLLECTION_KINDS[5:]
+ALL_KINDS = SCALAR_KINDS + COLLECTION_KINDS[:7] + ["leaf"] + COLLECTION_KINDS[7:]
 DEFAULT_MODES = ["none", "lit", "mut", "attr_default", "attr_factory", "field_default", "field_factory"]
 
 
@@ -289,13 +295,13 @@ def class_source(rec):
 
 REDEFAULT_SRC = {
     "int": "42", "str": "'r'", "float": "4.5", "bounded": "42", "even": "42", "optint": "9", "union": "'r'", "literal": "'b'",
-    "nums": "[4, 2]", "words": "['r']", "scores": "{'r': 4}", "tags": "{4}", "labels": "{'r'}", "leaf": "Leaf(x=42)",
+    "nums": "[4, 2]", "lits": "['b']", "grids": "[[4]]", "words": "['r']", "scores": "{'r': 4}", "tags": "{4}", "labels": "{'r'}", "leaf": "Leaf(x=42)",
     "kids": "[Leaf(x=42)]", "pairs": "{'r': Leaf(x=42)}", "units": "[Keyed('r')]", "parts": "{'r': Keyed('r')}",
     "links": "KeyedList[Keyed, str]([Keyed('r')])", "marks": "KeyedSet[Keyed, str]([Keyed('r')])", "any": "[4]",
 }
 REDEFAULT_SPEC = {
     "int": 42, "str": "r", "float": 4.5, "bounded": 42, "even": 42, "optint": 9, "union": "r", "literal": "b",
-    "nums": ["list", [4, 2]], "words": ["list", ["r"]], "scores": ["dict", [["r", 4]]], "tags": ["set", [4]], "labels": ["set", ["r"]],
+    "nums": ["list", [4, 2]], "lits": ["list", ["b"]], "grids": ["list", [["list", [4]]]], "words": ["list", ["r"]], "scores": ["dict", [["r", 4]]], "tags": ["set", [4]], "labels": ["set", ["r"]],
     "leaf": ["Leaf", {"x": 42}], "kids": ["list", [["Leaf", {"x": 42}]]], "pairs": ["dict", [["r", ["Leaf", {"x": 42}]]]],
     "units": ["list", [["Keyed", {"key": "r"}]]], "parts": ["dict", [["r", ["Keyed", {"key": "r"}]]]],
     "links": ["KeyedList", [["Keyed", {"key": "r"}]]], "marks": ["KeyedSet", [["Keyed", {"key": "r"}]]], "any": ["list", [4]],
@@ -325,6 +331,7 @@ PREPARERS = {
     "bounded": _prep_scalar(7, 8, 5, -1),
     "even": _prep_scalar(4, 6, 8, 1),
     "nums": lambda v: [8] if v == [7] else v,
+    "lits": lambda v: v, "grids": lambda v: v,
     "words": lambda v: ["A"] if v == ["a"] else v,
     "scores": lambda v: {"a": 8} if v == {"a": 7} else v,
     "tags": lambda v: {8} if v == {7} else v,
@@ -335,6 +342,7 @@ PREPARERS = {
 }
 ITEM_PREPARERS = {
     "nums": _prep_scalar(7, 8, -1, "bad"),
+    "lits": lambda v: v, "grids": lambda v: v,
     "words": _prep_scalar("a", "A", "zz", 5),
     "scores": _prep_scalar(7, 8, -1, "bad"),
     "tags": _prep_scalar(7, 8, -1, "bad"),
@@ -386,6 +394,12 @@ class Env:
                 return self.KeyedList[self.Keyed, str]([self.mk(x) for x in spec[1]])
             if tag == "KeyedSet":
                 return self.KeyedSet[self.Keyed, str]([self.mk(x) for x in spec[1]])
+            if tag == "RawKeyedList":
+                return self.KeyedList([self.mk(x) for x in spec[1]])
+            if tag == "RawKeyedSet":
+                return self.KeyedSet([self.mk(x) for x in spec[1]])
+            if tag == "inst":
+                return self.cls(**{k: self.mk(v) for k, v in spec[1].items()})
             if tag == "MISSING":
                 return spec_classes.MISSING
             if tag == "UNCHANGED":
@@ -479,6 +493,8 @@ COMPOSITES = [
     composite("CompDnc", [("int", "lit"), ("nums", "mut"), ("kids", "mut")], do_not_copy=["nums"]),
     composite("CompKL", [("links", "none"), ("marks", "none"), ("int", "lit")]),
     composite("CompPrep", [("int", "lit"), ("nums", "mut"), ("scores", "none")], preparers=["v"], item_preparers=["nums", "scores"]),
+    composite("CompInv", [("int", "lit"), ("str", "lit"), ("nums", "mut")], invalidated_by={"s": ["v"], "nums": ["v"]}),
+    composite("CompInvNoDefault", [("int", "none"), ("str", "lit"), ("float", "lit")], invalidated_by={"s": ["v"], "f": ["s"]}),
 ]
 
 
